@@ -83,6 +83,12 @@ class Engine(Interp, ExecMixin, EvalMixin, CallMixin, BuiltinMixin):
         if c.kind == "assumed":
             self.assumed_used.add(key)
         caller = st.frames[0].qualname if st.frames else "?"
+        if st.spec == 0 and st.frames:
+            cc0 = getattr(st.frame, "contract", None)
+            for loc, expr in ((cc0.options.get("ghost_before") or {}).get(key.split(":")[-1], []) if cc0 is not None else []):
+                # ghost assignment placed by the caller's contract just before this call
+                o = self.ev_spec(st, loc.value)
+                st.obj(o).fields[loc.attr] = self.ev_spec(st, expr)
         env = self.bind_contract_args(st, c, args, kwargs)
         if c.fresh:
             cfr = st.frame
